@@ -37,7 +37,8 @@ func genC14(seed uint64, tier string) *Plan {
 		if t.RetNanos > ret {
 			ret = t.RetNanos
 		}
-		t.MinFlush = int64(PickOne(r, []time.Duration{time.Millisecond, 100 * time.Millisecond, 5 * time.Second}))
+		// (an hour: in effect only forced flushes - every tenth flush is a forced one then)
+		t.MinFlush = int64(PickOne(r, []time.Duration{time.Millisecond, 100 * time.Millisecond, 5 * time.Second, time.Hour}))
 		t.MaxFlush = t.MinFlush * int64(PickOne(r, []int{1, 10}))
 	}
 	res := p.Tables[0].ResNanos
@@ -238,6 +239,18 @@ func (s *c14state) check(final bool, filled map[string]bool) error {
 				if disk.Rows[i].TS < expired {
 					return &Violation{"expired-period-on-disk", fmt.Sprintf("after 10 data-carrying flushes table %s still holds period %v of key [%s] on disk (now=%v retention=%v)", name, time.Duration(disk.Rows[i].TS-BaseNanos), disk.Rows[i].Key, time.Duration(now-BaseNanos), t.Ret())}
 				}
+			}
+			// queries cut their answer to the retention window; the file itself
+			// is read through hook H4 (SimOldestOnDisk)
+			oldest, nrows, ok, oerr := s.n.DB.SimOldestOnDisk(name)
+			if oerr != nil {
+				return fmt.Errorf("SimOldestOnDisk(%s): %v", name, oerr)
+			}
+			if ok && oldest.UnixNano() < expired {
+				return &Violation{"expired-period-in-file", fmt.Sprintf("after 10 data-carrying flushes the filestore of table %s (%d rows) still holds a sequence reaching back to period %v, which had expired before those flushes began (now=%v retention=%v)", name, nrows, time.Duration(oldest.UnixNano()-BaseNanos), time.Duration(now-BaseNanos), t.Ret())}
+			}
+			if ok {
+				e.Count("probe.file-inspected")
 			}
 			for i := range dump.Rows {
 				if dump.Rows[i].TS < expired {
